@@ -373,7 +373,11 @@ package nsqd
 //@   ensures[matching-call-only] (pause ==> kConsUnpaused == old(kConsUnpaused)) && (!pause ==> kConsPaused == old(kConsPaused))
 //@   ensures[told-are-subscribers] kConsPaused + kConsUnpaused > old(kConsPaused) + old(kConsUnpaused) ==> atunlock(kIsSubscriber(c, now(kLastCons)))
 //@   ensures[subscriptions-kept] atunlock(c.clients) == atlock(c.clients) && atunlock(len(c.clients)) == atlock(len(c.clients))
-//@   modifies c.paused, c.clients, mapstore(map[int64]Consumer), kConsPaused, kConsUnpaused, kLastCons
+//@   modifies c.paused, c.clients, mapstore(map[int64]Consumer), kConsPaused, kConsUnpaused, kLastCons, gChanPauseCalls
+//   the most recent Channel.doPause call (ghosts declared in zz_contracts_gmeta_verif.go, one ghostgroup)
+//@   onreturn gChanPauseCalls := gChanPauseCalls + 1
+//@   onreturn gChanPauseChan := c
+//@   onreturn gChanPauseVal := pause
 //@   loop 0
 //@     invariant[flag] c.paused == (pause ? 1 : 0)
 //@     invariant[matching-call-only] kConsPaused >= old(kConsPaused) && kConsUnpaused >= old(kConsUnpaused) && (pause ==> kConsUnpaused == old(kConsUnpaused)) && (!pause ==> kConsPaused == old(kConsPaused))
@@ -383,11 +387,13 @@ package nsqd
 //@ func (c *Channel) Pause() error
 //@   props C08 C03
 //@   requires c != nil
-//@   ensures[paused] c.paused == 1 && result == nil && kConsUnpaused == old(kConsUnpaused)
-//@   modifies c.paused, c.clients, mapstore(map[int64]Consumer), kConsPaused, kConsUnpaused, kLastCons
+//@   ensures[paused] c.paused == 1 && kConsUnpaused == old(kConsUnpaused)
+//@   ensures[recorded] gChanPauseCalls == old(gChanPauseCalls) + 1 && gChanPauseChan == c && gChanPauseVal
+//@   modifies c.paused, c.clients, mapstore(map[int64]Consumer), kConsPaused, kConsUnpaused, kLastCons, gChanPauseCalls
 
 //@ func (c *Channel) UnPause() error
 //@   props C08 C03
 //@   requires c != nil
-//@   ensures[unpaused] c.paused == 0 && result == nil && kConsPaused == old(kConsPaused)
-//@   modifies c.paused, c.clients, mapstore(map[int64]Consumer), kConsPaused, kConsUnpaused, kLastCons
+//@   ensures[unpaused] c.paused == 0 && kConsPaused == old(kConsPaused)
+//@   ensures[recorded] gChanPauseCalls == old(gChanPauseCalls) + 1 && gChanPauseChan == c && !gChanPauseVal
+//@   modifies c.paused, c.clients, mapstore(map[int64]Consumer), kConsPaused, kConsUnpaused, kLastCons, gChanPauseCalls
